@@ -179,6 +179,61 @@ func BackToBack(calls int, o Opts) Scenario {
 	}}
 }
 
+// TwoThreadsOneQueue: two application threads work on ONE queue: both enqueue copies on it and both wait for it
+// to drain (a listener of one thread is notified by the other thread's enqueues and by the simulation thread's
+// dequeues while its owner may still be blocked on the kick).
+func TwoThreadsOneQueue(o Opts) Scenario {
+	return Scenario{Name: "2threads-one-queue" + suffix(o), Opts: o, Threads: 2, Main: func(rt RT, o Opts) {
+		w := NewWorld(rt, o)
+		d := w.Driver
+		ctx := d.Init()
+		q := d.CreateCommandQueue(ctx)
+		bufs := []driver.Ptr{d.AllocateMemory(ctx, 4), d.AllocateMemory(ctx, 4)}
+		outs := make([][]byte, 2)
+		for i := 0; i < 2; i++ {
+			i := i
+			name := fmt.Sprintf("app%d", i)
+			rt.Go(name, func() {
+				data := []byte{byte(10*i + 1), byte(10*i + 2), byte(10*i + 3), byte(10*i + 4)}
+				out := make([]byte, 4)
+				outs[i] = out
+				ids := []string{h2d(w, q, name+"c0", bufs[i], data), d2h(w, q, name+"c1", out, bufs[i])}
+				w.DrainShared(name, q, ids...)
+				expect(w, name+"-own-data", out, data)
+			})
+		}
+		rt.Wait()
+		outcome(w, []*driver.Context{ctx}, bufs, 4, fmt.Sprint(outs))
+	}}
+}
+
+// TwoThreadsOneQueueNoop: the smallest two-thread program on one queue: thread A enqueues two no-op commands and
+// waits for the queue, thread B only waits for the queue (its listener is notified by A's enqueues and by the
+// simulation thread's dequeues while B may still be blocked on the kick).
+func TwoThreadsOneQueueNoop(o Opts) Scenario {
+	return Scenario{Name: "2threads-one-queue-noop" + suffix(o), Opts: o, Threads: 2, Main: func(rt RT, o Opts) {
+		w := NewWorld(rt, o)
+		d := w.Driver
+		ctx := d.Init()
+		q := d.CreateCommandQueue(ctx)
+		d.Enqueue(q, &driver.NoopCommand{ID: "n0"})
+		rt.Go("appB", func() {
+			w.DrainShared("appB", q)
+		})
+		rt.Go("appA", func() {
+			d.Enqueue(q, &driver.NoopCommand{ID: "n1"})
+			d.Enqueue(q, &driver.NoopCommand{ID: "n2"})
+			w.DrainShared("appA", q, "n1", "n2")
+		})
+		rt.Wait()
+		rt.Quiesce()
+		if n := verifNumCommands(q); n > 0 {
+			rt.Fail("commands-left-in-queue-at-the-end", "%d command(s) still queued after both threads returned from DrainCommandQueue and the engine went idle", n)
+		}
+		rt.Outcome(fmt.Sprintf("queue-left=%d", verifNumCommands(q)))
+	}}
+}
+
 // TwoThreads: two application threads, own context each (shared=false) or one
 // shared context (shared=true); each copies its own pattern in and out.
 func TwoThreads(shared bool, o Opts) Scenario {
@@ -274,6 +329,47 @@ func RaceScenarios(o Opts) []Scenario {
 	return []Scenario{
 		Commands1Q(3, o), BackToBack(3, o), TwoQueues(o), TwoThreads(false, o), TwoThreads(true, o), Kernel1Q(o), AsyncAlloc(o), Commands1Q(3, om),
 	}
+}
+
+// AsyncRefill: the asynchronous API with a large host buffer that the application refills between the enqueue and
+// the drain (n bytes; the simulation only runs inside DrainCommandQueue, so what reaches the device is the buffer's
+// content at that call - whatever threads the driver uses internally). The outcome is a digest of the device
+// bytes and of what a following D2H returns.
+func AsyncRefill(n int, o Opts) Scenario {
+	return Scenario{Name: fmt.Sprintf("1thread-async-h2d-%dKiB-host-buffer-refilled-before-drain%s", n/1024, suffix(o)), Opts: o, Threads: 1, Main: func(rt RT, o Opts) {
+		w := NewWorld(rt, o)
+		d := w.Driver
+		ctx := d.Init()
+		buf := d.AllocateMemory(ctx, uint64(n))
+		q := d.CreateCommandQueue(ctx)
+		host := make([]byte, n)
+		for i := range host {
+			host[i] = byte(i*7 + 1)
+		}
+		d.EnqueueMemCopyH2D(q, buf, host)
+		for i := range host {
+			host[i] = byte(i*13 + 5)
+		}
+		d.DrainCommandQueue(q)
+		out := make([]byte, n)
+		d.MemCopyD2H(ctx, out, buf)
+		rt.Quiesce()
+		sum := func(b []byte) uint64 {
+			h := uint64(1469598103934665603)
+			for _, x := range b {
+				h = (h ^ uint64(x)) * 1099511628211
+			}
+			return h
+		}
+		first := "first-fill"
+		switch {
+		case len(out) > 0 && out[0] == host[0] && out[n-1] == host[n-1]:
+			first = "refill"
+		case len(out) > 0 && out[0] != 1:
+			first = "mixture"
+		}
+		rt.Outcome(fmt.Sprintf("bytes: device holds the %s (digest %x)", first, sum(out)))
+	}}
 }
 
 // Repro is the C05 body: one application thread issues `calls` blocking API
